@@ -1368,6 +1368,9 @@ def set_instantaneous_absorption(model: Model):
             )
             model = remove_unused_parameters_and_rvs(model)
         if has_zero_order_absorption(model):
+            # NOTE: The model could have been changed above
+            statements = model.statements
+            cs = get_and_check_odes(model)
             dose_comp = cs.dosing_compartments[0]
             old_symbols = dose_comp.free_symbols
             cb = CompartmentalSystemBuilder(cs)
